@@ -38,7 +38,8 @@ var discard = slog.New(slog.NewTextHandler(io.Discard, nil))
 func main() {
 	o := hlib.ParseFlags()
 	r := hlib.NewResult("C17", o)
-	r.Rule = "handler: random and exhaustive schedules of queries, Refresh calls and clock advances against the real " +
+	r.Rule = "handler: random and exhaustive schedules of queries, Refresh calls (also with queries issued from inside the probes, " +
+		"with cancelled or expired contexts, after NewHandler's initial health check) and clock advances against the real " +
 		"forward.Handler with scripted in-memory upstreams (reply / net.Error / other error / nil) and against the real " +
 		"handler with real UpstreamPlain clients talking to scripted loopback UDP+TCP servers; every op is sent to the " +
 		"Lean model and checked by an independent reference monitor; plain: UpstreamPlain.Exchange and " +
@@ -48,6 +49,7 @@ func main() {
 	defer m.Close()
 
 	fakeCampaign(o, r, m)
+	spreadCampaign(o, r)
 	validateCampaign(o, r, m)
 	readMsgCampaign(o, r, m)
 	plainCampaign(o, r, m)
@@ -65,6 +67,12 @@ type op struct {
 	Main []string `json:"main,omitempty"`
 	Fb   []string `json:"fb,omitempty"`
 	K    int      `json:"k,omitempty"`
+	// Ctx is the state of the context handed to ServeDNS / Refresh: "" (live),
+	// "cancel" (already cancelled) or "expired" (deadline in the past).
+	Ctx string `json:"ctx,omitempty"`
+	// In (rf only, in-memory world): In[u] are the queries that arrive while
+	// the health-check loop is probing main upstream u.
+	In [][]op `json:"in,omitempty"`
 }
 
 func (p op) String() string {
@@ -72,7 +80,17 @@ func (p op) String() string {
 	case "adv":
 		return fmt.Sprintf("adv%d", p.K)
 	default:
-		return p.Kind + "[" + strings.Join(p.Main, ",") + "|" + strings.Join(p.Fb, ",") + "]"
+		out := p.Kind + "[" + strings.Join(p.Main, ",") + "|" + strings.Join(p.Fb, ",") + "]"
+		if p.Ctx != "" {
+			out += "@" + p.Ctx
+		}
+		for u, qs := range p.In {
+			for _, q := range qs {
+				out += fmt.Sprintf("{%d:%s}", u, q.String())
+			}
+		}
+
+		return out
 	}
 }
 
@@ -84,8 +102,31 @@ type sched struct {
 	// plain upstreams of the socket world; empty means all "any".
 	MainNet []string `json:"main_net,omitempty"`
 	FbNet   []string `json:"fb_net,omitempty"`
-	Ops     []op     `json:"ops"`
+	// Init, when not nil, makes NewHandler run its initial health check
+	// (HealthcheckInitDuration > 0) against main upstreams behaving like this.
+	Init []string `json:"init,omitempty"`
+	// RandTmpl: the health-check domain template contains ${RANDOM}.
+	RandTmpl bool `json:"rand_tmpl,omitempty"`
+	Ops      []op `json:"ops"`
 }
+
+// with returns a copy of the schedule's configuration with other ops.
+func (s *sched) with(ops []op) *sched {
+	c := *s
+	c.Ops = ops
+
+	return &c
+}
+
+func (s *sched) tmpl() string {
+	if s.RandTmpl {
+		return "${RANDOM}." + probeDomain
+	}
+
+	return probeDomain
+}
+
+func isProbeName(name string) bool { return strings.HasSuffix(name, probeName) }
 
 // netOf returns the configured network of an upstream of the schedule.
 func (s *sched) netOf(fb bool, idx int) string {
@@ -104,6 +145,12 @@ func (s *sched) canon() string {
 	parts := []string{fmt.Sprintf("%d/%d/%d", s.NMain, s.NFb, s.Backoff)}
 	if len(s.MainNet)+len(s.FbNet) > 0 {
 		parts[0] += "/" + strings.Join(s.MainNet, ",") + "|" + strings.Join(s.FbNet, ",")
+	}
+	if s.Init != nil {
+		parts[0] += "/init=" + strings.Join(s.Init, ",")
+	}
+	if s.RandTmpl {
+		parts[0] += "/rnd"
 	}
 	for _, p := range s.Ops {
 		parts = append(parts, p.String())
@@ -133,7 +180,56 @@ type world interface {
 	classify(fb bool, idx int, beh string) string
 	// probeOK: a health probe of main upstream idx behaving like beh succeeds.
 	probeOK(idx int, beh string) bool
+	// probeTok is the model's token for a probe of main upstream idx behaving like beh.
+	probeTok(idx int, beh string) string
+	// initLog returns the upstreams contacted during NewHandler; ok is false
+	// when the world cannot tell.
+	initLog() (l []call, ok bool)
 	close()
+}
+
+// effBeh resolves the context-dependent behaviour "cx" (an upstream that is
+// fine but honours the caller's context): with a live context it answers, with
+// a cancelled one it fails with context.Canceled (not a network error), with
+// an expired one with context.DeadlineExceeded (a net.Error: Timeout() is true).
+func effBeh(beh, ctx string, probe bool) string {
+	if beh != "cx" {
+		return beh
+	}
+	switch ctx {
+	case "cancel":
+		return "o4"
+	case "expired":
+		return "n3"
+	}
+	if probe {
+		return "ok"
+	}
+
+	return "r"
+}
+
+func effBehs(behs []string, ctx string, probe bool) []string {
+	out := make([]string, len(behs))
+	for i, b := range behs {
+		out[i] = effBeh(b, ctx, probe)
+	}
+
+	return out
+}
+
+func ctxOf(kind string) (ctx context.Context, cancel func()) {
+	switch kind {
+	case "cancel":
+		ctx, cancel = context.WithCancel(context.Background())
+		cancel()
+
+		return ctx, func() {}
+	case "expired":
+		return context.WithDeadline(context.Background(), time.Now().Add(-time.Second))
+	}
+
+	return context.Background(), func() {}
 }
 
 func tokOf(fb bool, idx, step int) int {
@@ -149,13 +245,19 @@ type finding struct {
 	sig, what string
 }
 
+// reported holds the signatures already handed to the result (which keeps one
+// finding per signature): later occurrences are not shrunk again.
+var reported = map[string]bool{}
+
+// interleaveOff is set once a query inside a round has been seen to block: every
+// further attempt would cost its timeout.
+var interleaveOff bool
+
 // runSchedule drives the real handler of w through s.  It returns the model
 // lines, the implementation's canonical answers to them and the verdicts of
 // the reference monitor (the property oracle, which never looks at the model).
 func runSchedule(w world, s *sched) (lines, obs []string, viols []finding, nontrivial bool) {
 	h := w.handler()
-	lines = append(lines, fmt.Sprintf("cfg %d %d %d", s.NMain, s.NFb, s.Backoff))
-	obs = append(obs, "ok")
 
 	violate := func(sig, format string, args ...any) {
 		viols = append(viols, finding{sig: sig, what: fmt.Sprintf(format, args...)})
@@ -171,6 +273,53 @@ func runSchedule(w world, s *sched) (lines, obs []string, viols []finding, nontr
 	failedAt := make([]int, s.NMain)
 	early := make([]bool, s.NMain)
 	now := 0
+
+	if s.Init == nil {
+		lines = append(lines, fmt.Sprintf("cfg %d %d %d", s.NMain, s.NFb, s.Backoff))
+		obs = append(obs, "ok")
+	} else {
+		// NewHandler ran the initial health check at t=0.
+		toks := make([]string, s.NMain)
+		for u := range toks {
+			toks[u] = w.probeTok(u, s.Init[u])
+		}
+		act, ago, _ := forward.VerifC17State(h)
+		lf := make([]string, len(ago))
+		for i, a := range ago {
+			lf[i] = "-"
+			if a >= 0 {
+				lf[i] = fmt.Sprint(-int(a / tick))
+			}
+		}
+		probedS := "?"
+		il, seen := w.initLog()
+		var probed []int
+		for _, c := range il {
+			if !c.fb && c.probe {
+				probed = append(probed, c.idx)
+			}
+		}
+		if seen {
+			probedS = intList(probed)
+		}
+		lines = append(lines, fmt.Sprintf("cfg %d %d %d %s", s.NMain, s.NFb, s.Backoff, strList(toks)))
+		obs = append(obs, fmt.Sprintf("act=%s lf=%s probed=%s err=%s", intList(act), strList(lf), probedS, b2s(s.NFb > 0 && len(act) == 0)))
+		// Oracle: with fallbacks the initial check is a health-check round like
+		// any other; without them nothing may be taken out of rotation.
+		if s.NFb > 0 {
+			for u := 0; u < s.NMain; u++ {
+				if seen && !containsInt(probed, u) {
+					violate("no-probe-in-initial-check", "NewHandler with an initial health check did not probe main upstream %d", u)
+				}
+				if w.probeOK(u, s.Init[u]) {
+					last[u] = probedOK
+				} else {
+					last[u] = probedFailed
+					nontrivial = true
+				}
+			}
+		}
+	}
 
 	healthy := func(u int) bool { return last[u] != probedFailed }
 	checkRotation := func(when string) {
@@ -195,160 +344,232 @@ func runSchedule(w world, s *sched) (lines, obs []string, viols []finding, nontr
 	}
 	checkRotation("after NewHandler")
 
+	// stuck collects queries that did not return (see doQuery); seq is the order
+	// of events of the health-check round in progress.
+	var stuck []chan error
+	var seq []string
+	// doQuery serves one query and judges it.  slot < 0: an ordinary query;
+	// otherwise it arrives while main upstream slot is being probed.  The oracle's
+	// view of the upstreams' health is that of the last completed round in both
+	// cases (last is brought up to date after Refresh has returned).
+	var doQuery func(p op, step, slot int)
+	doQuery = func(p op, step, slot int) {
+		w.arm(p.Main, p.Fb, step)
+		emain, efb := effBehs(p.Main, p.Ctx, false), effBehs(p.Fb, p.Ctx, false)
+		req := &dns.Msg{}
+		req.SetQuestion(queryName, dns.TypeA)
+		req.Id = uint16(4000 + step)
+		rw := dnsserver.NewNonWriterResponseWriter(&net.UDPAddr{IP: net.IPv4(127, 0, 0, 1), Port: 1},
+			&net.UDPAddr{IP: net.IPv4(127, 0, 0, 1), Port: 2})
+		ctx, cancel := ctxOf(p.Ctx)
+		var err error
+		if slot < 0 {
+			err = h.ServeDNS(ctx, rw, req)
+		} else {
+			// Inside a health-check round: the query must not have to wait for
+			// the round to end.
+			done := make(chan error, 1)
+			go func() { done <- h.ServeDNS(ctx, rw, req) }()
+			select {
+			case err = <-done:
+			case <-time.After(2 * time.Second):
+				violate("query-blocked-by-running-healthcheck",
+					"step %d: a query that arrived while main upstream %d was being probed got no answer within 2 s", step, slot)
+				stuck = append(stuck, done)
+				interleaveOff = true
+				cancel()
+
+				return
+			}
+		}
+		cancel()
+		log := w.takeLog()
+		got := -1 // token delivered to the client, -1 = error (SERVFAIL)
+		if resp := rw.Msg(); err == nil && resp != nil {
+			got = respTok(resp)
+			if resp.Id != req.Id || len(resp.Question) != 1 || resp.Question[0].Qtype != dns.TypeA ||
+				!strings.EqualFold(resp.Question[0].Name, queryName) {
+				violate("mismatched-reply-delivered", "step %d: the client got a response that does not match its query: id %d (query %d), questions %v", step, resp.Id, req.Id, resp.Question)
+			}
+		} else if err == nil {
+			violate("no-error-no-response", "step %d: ServeDNS returned nil without writing a response", step)
+		}
+
+		var mainCalls, fbCalls []int
+		for _, c := range log {
+			if c.fb {
+				fbCalls = append(fbCalls, c.idx)
+			} else {
+				mainCalls = append(mainCalls, c.idx)
+			}
+		}
+		o := "sf"
+		if got >= 0 {
+			o = fmt.Sprintf("a%d", got)
+		}
+		for _, c := range log {
+			if c.fb {
+				o += fmt.Sprintf(" f%d", c.idx)
+			} else {
+				o += fmt.Sprintf(" m%d", c.idx)
+			}
+		}
+		pm, pf := "-", "-"
+		if len(mainCalls) > 0 {
+			pm = fmt.Sprint(mainCalls[0])
+		}
+		if len(fbCalls) > 0 {
+			pf = fmt.Sprint(fbCalls[0])
+		}
+		if slot < 0 {
+			lines = append(lines, fmt.Sprintf("q %s %s %s %s", pm, pf, tokList(w, emain, false, step), tokList(w, efb, true, step)))
+		} else {
+			lines = append(lines, fmt.Sprintf("qi %d %s %s %s %s", slot, pm, pf, tokList(w, emain, false, step), tokList(w, efb, true, step)))
+			seq = append(seq, "q")
+		}
+		obs = append(obs, o)
+		if len(fbCalls) > 0 {
+			nontrivial = true
+		}
+
+		// --- property oracle ---
+		if len(mainCalls) > 1 || len(fbCalls) > 1 {
+			violate("query-tried-more-than-once", "step %d: mains %v and fallbacks %v were tried for one query", step, mainCalls, fbCalls)
+		}
+		anyHealthy := false
+		for u := 0; u < s.NMain; u++ {
+			anyHealthy = anyHealthy || healthy(u)
+		}
+		if len(mainCalls) == 0 && s.NMain > 0 {
+			if s.NFb == 0 {
+				violate("main-out-of-rotation-without-fallbacks", "step %d: no fallbacks configured but no main upstream was asked", step)
+			} else if anyHealthy {
+				violate("fallback-while-main-healthy", "step %d (t=%d): no main upstream asked although one is healthy (last probes %v)", step, now, last)
+			}
+		}
+		mainKind := "none"
+		if len(mainCalls) > 0 {
+			u := mainCalls[0]
+			mainKind = w.classify(false, u, emain[u])
+			if s.NFb > 0 && last[u] == probedFailed {
+				violate("main-used-after-failed-probe",
+					"step %d (t=%d): query sent to main upstream %d whose last probe failed at t=%d", step, now, u, failedAt[u])
+			}
+			if s.NFb > 0 && early[u] {
+				violate("main-used-before-backoff-elapsed",
+					"step %d (t=%d): query sent to main upstream %d which was re-probed %d ticks after its failed probe, backoff %d",
+					step, now, u, now-failedAt[u], s.Backoff)
+			}
+		}
+		fbKind := "none"
+		if len(fbCalls) > 0 {
+			fbKind = w.classify(true, fbCalls[0], efb[fbCalls[0]])
+		}
+		switch mainKind {
+		case "reply":
+			u := mainCalls[0]
+			if got != tokOf(false, u, step) || len(fbCalls) > 0 {
+				violate("main-reply-not-used", "step %d: main upstream %d replied but the client got %s (fallbacks asked: %v)", step, u, o, fbCalls)
+			}
+		case "net", "none":
+			if mainKind == "none" && s.NMain > 0 && (s.NFb == 0 || anyHealthy) {
+				break // already reported above
+			}
+			if s.NFb > 0 && len(fbCalls) == 0 {
+				violate("no-fallback-on-network-error", "step %d: main result %q, fallbacks configured, but none was tried; client got %s", step, mainKind, o)
+			}
+			if len(fbCalls) == 1 {
+				f := fbCalls[0]
+				switch fbKind {
+				case "reply":
+					if got != tokOf(true, f, step) {
+						violate("fallback-reply-not-used", "step %d: fallback %d replied but the client got %s", step, f, o)
+					}
+				case "net", "other", "nil":
+					if got >= 0 {
+						violate("answer-from-nowhere", "step %d: main %q and fallback %q but the client got %s", step, mainKind, fbKind, o)
+					}
+				}
+			}
+			if s.NFb == 0 && got >= 0 {
+				violate("answer-from-nowhere", "step %d: main %q, no fallbacks, but the client got %s", step, mainKind, o)
+			}
+		case "other", "nil":
+			if got >= 0 && len(fbCalls) == 0 {
+				violate("answer-from-nowhere", "step %d: main failed (%s), no fallback asked, but the client got %s", step, mainKind, o)
+			}
+		}
+		// Whatever happened, a delivered token must come from an upstream that was asked.
+		if got >= 0 {
+			okTok := false
+			for _, c := range log {
+				okTok = okTok || got == tokOf(c.fb, c.idx, step)
+			}
+			if !okTok {
+				violate("answer-from-nowhere", "step %d: the client got token %d which no asked upstream sent (%s)", step, got, o)
+			}
+		}
+	}
+
 	for step, p := range s.Ops {
 		switch p.Kind {
 		case "adv":
 			forward.VerifC17AdvanceClock(h, time.Duration(p.K)*tick)
 			now += p.K
 		case "q":
-			w.arm(p.Main, p.Fb, step)
-			req := &dns.Msg{}
-			req.SetQuestion(queryName, dns.TypeA)
-			req.Id = uint16(4000 + step)
-			rw := dnsserver.NewNonWriterResponseWriter(&net.UDPAddr{IP: net.IPv4(127, 0, 0, 1), Port: 1},
-				&net.UDPAddr{IP: net.IPv4(127, 0, 0, 1), Port: 2})
-			err := h.ServeDNS(context.Background(), rw, req)
-			log := w.takeLog()
-			got := -1 // token delivered to the client, -1 = error (SERVFAIL)
-			if resp := rw.Msg(); err == nil && resp != nil {
-				got = respTok(resp)
-				if resp.Id != req.Id || len(resp.Question) != 1 || resp.Question[0].Qtype != dns.TypeA ||
-					!strings.EqualFold(resp.Question[0].Name, queryName) {
-					violate("mismatched-reply-delivered", "step %d: the client got a response that does not match its query: id %d (query %d), questions %v", step, resp.Id, req.Id, resp.Question)
-				}
-			} else if err == nil {
-				violate("no-error-no-response", "step %d: ServeDNS returned nil without writing a response", step)
-			}
-
-			var mainCalls, fbCalls []int
-			for _, c := range log {
-				if c.fb {
-					fbCalls = append(fbCalls, c.idx)
-				} else {
-					mainCalls = append(mainCalls, c.idx)
-				}
-			}
-			o := "sf"
-			if got >= 0 {
-				o = fmt.Sprintf("a%d", got)
-			}
-			for _, c := range log {
-				if c.fb {
-					o += fmt.Sprintf(" f%d", c.idx)
-				} else {
-					o += fmt.Sprintf(" m%d", c.idx)
-				}
-			}
-			pm, pf := "-", "-"
-			if len(mainCalls) > 0 {
-				pm = fmt.Sprint(mainCalls[0])
-			}
-			if len(fbCalls) > 0 {
-				pf = fmt.Sprint(fbCalls[0])
-			}
-			lines = append(lines, fmt.Sprintf("q %s %s %s %s", pm, pf, tokList(w, p.Main, false, step), tokList(w, p.Fb, true, step)))
-			obs = append(obs, o)
-			if len(fbCalls) > 0 {
-				nontrivial = true
-			}
-
-			// --- property oracle ---
-			if len(mainCalls) > 1 || len(fbCalls) > 1 {
-				violate("query-tried-more-than-once", "step %d: mains %v and fallbacks %v were tried for one query", step, mainCalls, fbCalls)
-			}
-			anyHealthy := false
-			for u := 0; u < s.NMain; u++ {
-				anyHealthy = anyHealthy || healthy(u)
-			}
-			if len(mainCalls) == 0 && s.NMain > 0 {
-				if s.NFb == 0 {
-					violate("main-out-of-rotation-without-fallbacks", "step %d: no fallbacks configured but no main upstream was asked", step)
-				} else if anyHealthy {
-					violate("fallback-while-main-healthy", "step %d (t=%d): no main upstream asked although one is healthy (last probes %v)", step, now, last)
-				}
-			}
-			mainKind := "none"
-			if len(mainCalls) > 0 {
-				u := mainCalls[0]
-				mainKind = w.classify(false, u, p.Main[u])
-				if s.NFb > 0 && last[u] == probedFailed {
-					violate("main-used-after-failed-probe",
-						"step %d (t=%d): query sent to main upstream %d whose last probe failed at t=%d", step, now, u, failedAt[u])
-				}
-				if s.NFb > 0 && early[u] {
-					violate("main-used-before-backoff-elapsed",
-						"step %d (t=%d): query sent to main upstream %d which was re-probed %d ticks after its failed probe, backoff %d",
-						step, now, u, now-failedAt[u], s.Backoff)
-				}
-			}
-			fbKind := "none"
-			if len(fbCalls) > 0 {
-				fbKind = w.classify(true, fbCalls[0], p.Fb[fbCalls[0]])
-			}
-			switch mainKind {
-			case "reply":
-				u := mainCalls[0]
-				if got != tokOf(false, u, step) || len(fbCalls) > 0 {
-					violate("main-reply-not-used", "step %d: main upstream %d replied but the client got %s (fallbacks asked: %v)", step, u, o, fbCalls)
-				}
-			case "net", "none":
-				if mainKind == "none" && s.NMain > 0 && (s.NFb == 0 || anyHealthy) {
-					break // already reported above
-				}
-				if s.NFb > 0 && len(fbCalls) == 0 {
-					violate("no-fallback-on-network-error", "step %d: main result %q, fallbacks configured, but none was tried; client got %s", step, mainKind, o)
-				}
-				if len(fbCalls) == 1 {
-					f := fbCalls[0]
-					switch fbKind {
-					case "reply":
-						if got != tokOf(true, f, step) {
-							violate("fallback-reply-not-used", "step %d: fallback %d replied but the client got %s", step, f, o)
-						}
-					case "net", "other", "nil":
-						if got >= 0 {
-							violate("answer-from-nowhere", "step %d: main %q and fallback %q but the client got %s", step, mainKind, fbKind, o)
-						}
-					}
-				}
-				if s.NFb == 0 && got >= 0 {
-					violate("answer-from-nowhere", "step %d: main %q, no fallbacks, but the client got %s", step, mainKind, o)
-				}
-			case "other", "nil":
-				if got >= 0 && len(fbCalls) == 0 {
-					violate("answer-from-nowhere", "step %d: main failed (%s), no fallback asked, but the client got %s", step, mainKind, o)
-				}
-			}
-			// Whatever happened, a delivered token must come from an upstream that was asked.
-			if got >= 0 {
-				okTok := false
-				for _, c := range log {
-					okTok = okTok || got == tokOf(c.fb, c.idx, step)
-				}
-				if !okTok {
-					violate("answer-from-nowhere", "step %d: the client got token %d which no asked upstream sent (%s)", step, got, o)
-				}
-			}
+			doQuery(p, step, -1)
 		case "rf":
 			w.arm(p.Main, nil, step)
-			err := h.Refresh(context.Background())
+			eff := effBehs(p.Main, p.Ctx, true)
+			toks := make([]string, len(eff))
+			for u, b := range eff {
+				toks[u] = w.probeTok(u, b)
+			}
+			fw, _ := w.(*fakeWorld)
+			inter := fw != nil && p.In != nil && !interleaveOff
+			if inter {
+				lines = append(lines, fmt.Sprintf("rb %d %s", now, strList(toks)))
+				obs = append(obs, "ok")
+				seq = nil
+				fw.during = func(u int) {
+					if len(stuck) == 0 && u < len(p.In) && len(p.In[u]) > 0 {
+						saved := fw.takeLog()
+						sm, sf, sst := fw.main, fw.fb, fw.step
+						for _, q := range p.In[u] {
+							if len(stuck) == 0 {
+								doQuery(q, step, u)
+							}
+						}
+						fw.main, fw.fb, fw.step = sm, sf, sst
+						fw.log = append(saved, fw.log...)
+					}
+					seq = append(seq, fmt.Sprintf("p%d", u))
+				}
+			}
+			ctx, cancel := ctxOf(p.Ctx)
+			err := h.Refresh(ctx)
+			cancel()
+			if inter {
+				fw.during = nil
+			}
+			if len(stuck) > 0 {
+				// Let the blocked queries finish now that the round is over, then give up
+				// on this schedule: the finding has been recorded.
+				for _, d := range stuck {
+					select {
+					case <-d:
+					case <-time.After(5 * time.Second):
+					}
+				}
+
+				return lines, obs, viols, true
+			}
 			log := w.takeLog()
 			var probed []int
 			for _, c := range log {
 				if !c.fb && c.probe {
 					probed = append(probed, c.idx)
 				}
-			}
-			bits := ""
-			for u, b := range p.Main {
-				if w.probeOK(u, b) {
-					bits += "1"
-				} else {
-					bits += "0"
-				}
-			}
-			if bits == "" {
-				bits = "-"
 			}
 			act, ago, _ := forward.VerifC17State(h)
 			lf := make([]string, len(ago))
@@ -359,19 +580,29 @@ func runSchedule(w world, s *sched) (lines, obs []string, viols []finding, nontr
 					lf[i] = fmt.Sprint(now - int(a/tick))
 				}
 			}
-			lines = append(lines, fmt.Sprintf("rf %d %s", now, bits))
-			obs = append(obs, fmt.Sprintf("act=%s lf=%s probed=%s err=%s", intList(act), strList(lf), intList(probed), b2s(err != nil)))
+			state := fmt.Sprintf("act=%s lf=%s probed=%s err=%s", intList(act), strList(lf), intList(probed), b2s(err != nil))
+			if inter {
+				if s.NFb > 0 {
+					seq = append(seq, "end")
+				}
+				lines = append(lines, "re")
+				obs = append(obs, state+" seq="+strList(seq))
+				nontrivial = true
+			} else {
+				lines = append(lines, fmt.Sprintf("rf %d %s", now, strList(toks)))
+				obs = append(obs, state)
+			}
 
 			// --- property oracle ---
 			for _, u := range probed {
 				if last[u] == probedFailed && now-failedAt[u] < s.Backoff {
-					if w.probeOK(u, p.Main[u]) {
+					if w.probeOK(u, eff[u]) {
 						early[u] = true
 					}
 				} else {
 					early[u] = false
 				}
-				if w.probeOK(u, p.Main[u]) {
+				if w.probeOK(u, eff[u]) {
 					last[u] = probedOK
 				} else {
 					last[u] = probedFailed
@@ -478,6 +709,9 @@ type fakeWorld struct {
 	fb   []string
 	step int
 	log  []call
+	// during, when set, is called from inside every probe of a main upstream,
+	// before the probe's result is returned to the health-check loop.
+	during func(u int)
 }
 
 type fakeUps struct {
@@ -498,10 +732,11 @@ var (
 	errOther1 = fmt.Errorf("upstreamplain: validating udp response: %w", forward.ErrQuestion)
 	errOther2 = fmt.Errorf("upstreamplain: validating tcp response: %w", dns.ErrId)
 	errOther3 = fmt.Errorf("upstreamplain: reading binary data: %w", io.EOF)
+	errOther4 = fmt.Errorf("upstreamplain: getting connection: %w", context.Canceled)
 )
 
-func (f *fakeUps) Exchange(_ context.Context, req *dns.Msg) (resp *dns.Msg, nw forward.Network, err error) {
-	isProbe := len(req.Question) == 1 && req.Question[0].Name == probeName
+func (f *fakeUps) Exchange(ctx context.Context, req *dns.Msg) (resp *dns.Msg, nw forward.Network, err error) {
+	isProbe := len(req.Question) == 1 && isProbeName(req.Question[0].Name)
 	f.w.log = append(f.w.log, call{fb: f.fb, idx: f.idx, probe: isProbe})
 	behs := f.w.main
 	if f.fb {
@@ -511,16 +746,26 @@ func (f *fakeUps) Exchange(_ context.Context, req *dns.Msg) (resp *dns.Msg, nw f
 	if f.idx < len(behs) {
 		beh = behs[f.idx]
 	}
+	step := f.w.step
+	if isProbe && !f.fb && f.w.during != nil {
+		f.w.during(f.idx)
+	}
+	if beh == "cx" {
+		if cerr := ctx.Err(); cerr != nil {
+			return nil, forward.NetworkUDP, fmt.Errorf("upstreamplain: getting connection: %w", cerr)
+		}
+		beh = "r"
+	}
 	switch beh {
 	case "r", "ok":
-		return reply(req, tokOf(f.fb, f.idx, f.w.step)), forward.NetworkUDP, nil
+		return reply(req, tokOf(f.fb, f.idx, step)), forward.NetworkUDP, nil
 	case "rs", "sf":
-		resp = reply(req, tokOf(f.fb, f.idx, f.w.step))
+		resp = reply(req, tokOf(f.fb, f.idx, step))
 		resp.Rcode = dns.RcodeServerFailure
 
 		return resp, forward.NetworkTCP, nil
 	case "nx":
-		resp = reply(req, tokOf(f.fb, f.idx, f.w.step))
+		resp = reply(req, tokOf(f.fb, f.idx, step))
 		resp.Rcode = dns.RcodeNameError
 
 		return resp, forward.NetworkUDP, nil
@@ -537,6 +782,8 @@ func (f *fakeUps) Exchange(_ context.Context, req *dns.Msg) (resp *dns.Msg, nw f
 		return nil, forward.NetworkTCP, errOther2
 	case "o3":
 		return nil, forward.NetworkTCP, errOther3
+	case "o4":
+		return nil, forward.NetworkUDP, errOther4
 	default:
 		return nil, forward.NetworkUDP, nil
 	}
@@ -582,6 +829,26 @@ func (w *fakeWorld) classify(_ bool, _ int, beh string) string {
 
 func (w *fakeWorld) probeOK(_ int, beh string) bool { return beh == "ok" }
 
+// probeTok: what Exchange gives the probe (the model applies checkUpstream).
+func (w *fakeWorld) probeTok(_ int, beh string) string {
+	switch beh {
+	case "ok", "r":
+		return "r0"
+	case "sf", "rs":
+		return "r2"
+	case "nx":
+		return "r3"
+	case "z":
+		return "z"
+	default:
+		return "e"
+	}
+}
+
+// initLog: the initial check of NewHandler runs against the plain clients of
+// the dummy configuration (closed loopback ports), which are not observed.
+func (w *fakeWorld) initLog() (l []call, ok bool) { return nil, false }
+
 func dummyConfs(n int) (confs []*forward.UpstreamPlainConfig) {
 	for i := 0; i < n; i++ {
 		confs = append(confs, &forward.UpstreamPlainConfig{
@@ -596,12 +863,19 @@ func dummyConfs(n int) (confs []*forward.UpstreamPlainConfig) {
 
 func newFakeWorld(s *sched) *fakeWorld {
 	w := &fakeWorld{}
+	var initDur time.Duration
+	if s.Init != nil {
+		// The initial health check meets the dummy configuration: nothing
+		// listens on those ports, every probe fails with a network error.
+		initDur = time.Minute
+	}
 	w.h = forward.NewHandler(&forward.HandlerConfig{
 		Logger:                     discard,
-		HealthcheckDomainTmpl:      probeDomain,
+		HealthcheckDomainTmpl:      s.tmpl(),
 		UpstreamsAddresses:         dummyConfs(s.NMain),
 		FallbackAddresses:          dummyConfs(s.NFb),
 		HealthcheckBackoffDuration: time.Duration(s.Backoff) * tick,
+		HealthcheckInitDuration:    initDur,
 	})
 	mains := make([]forward.Upstream, s.NMain)
 	for i := range mains {
@@ -617,12 +891,15 @@ func newFakeWorld(s *sched) *fakeWorld {
 }
 
 var (
-	fakeQ  = []string{"r", "r", "r", "rs", "n1", "n2", "n3", "o1", "o2", "o3", "z"}
-	fakeP  = []string{"ok", "ok", "ok", "sf", "nx", "n1", "o1", "z"}
-	fakeFQ = []string{"r", "r", "rs", "n1", "n2", "o1", "o3", "z"}
+	fakeQ  = []string{"r", "r", "r", "rs", "n1", "n2", "n3", "o1", "o2", "o3", "o4", "z", "cx"}
+	fakeP  = []string{"ok", "ok", "ok", "sf", "nx", "n1", "o1", "z", "cx", "cx"}
+	fakeFQ = []string{"r", "r", "rs", "n1", "n2", "o1", "o3", "z", "cx"}
 )
 
-func genSched(rng *rand.Rand, qm, qf, pm []string, maxMain, maxFb, length int) *sched {
+// genSched draws a schedule.  extras (in-memory world only) adds what only that
+// world can script: queries arriving inside health-check rounds, contexts that
+// are already done, NewHandler's initial check, the ${RANDOM} probe domain.
+func genSched(rng *rand.Rand, qm, qf, pm []string, maxMain, maxFb, length int, extras bool) *sched {
 	s := &sched{NMain: 1 + rng.IntN(maxMain), NFb: rng.IntN(maxFb + 1), Backoff: rng.IntN(4)}
 	switch rng.IntN(12) {
 	case 0:
@@ -646,22 +923,53 @@ func genSched(rng *rand.Rand, qm, qf, pm []string, maxMain, maxFb, length int) *
 
 		return pool[rng.IntN(len(pool))]
 	}
+	genQ := func() op {
+		p := op{Kind: "q"}
+		for u := 0; u < s.NMain; u++ {
+			p.Main = append(p.Main, pick(qm, 1+sick[u]))
+		}
+		for f := 0; f < s.NFb; f++ {
+			p.Fb = append(p.Fb, pick(qf, 2))
+		}
+		if extras && rng.IntN(10) == 0 {
+			p.Ctx = []string{"cancel", "expired"}[rng.IntN(2)]
+			p.Main[rng.IntN(s.NMain)] = "cx"
+			if s.NFb > 0 && rng.IntN(2) == 0 {
+				p.Fb[rng.IntN(s.NFb)] = "cx"
+			}
+		}
+
+		return p
+	}
+	if extras {
+		s.RandTmpl = rng.IntN(3) == 0
+		if rng.IntN(6) == 0 {
+			for u := 0; u < s.NMain; u++ {
+				s.Init = append(s.Init, "n1")
+			}
+		}
+	}
 	n := 2 + rng.IntN(length)
 	for i := 0; i < n; i++ {
 		switch x := rng.IntN(10); {
 		case x < 4:
-			p := op{Kind: "q"}
-			for u := 0; u < s.NMain; u++ {
-				p.Main = append(p.Main, pick(qm, 1+sick[u]))
-			}
-			for f := 0; f < s.NFb; f++ {
-				p.Fb = append(p.Fb, pick(qf, 2))
-			}
-			s.Ops = append(s.Ops, p)
+			s.Ops = append(s.Ops, genQ())
 		case x < 7:
 			p := op{Kind: "rf"}
 			for u := 0; u < s.NMain; u++ {
 				p.Main = append(p.Main, pick(pm, 1+sick[u]))
+			}
+			if extras && rng.IntN(8) == 0 {
+				p.Ctx = []string{"cancel", "expired"}[rng.IntN(2)]
+				p.Main[rng.IntN(s.NMain)] = "cx"
+			}
+			if extras && rng.IntN(3) == 0 {
+				p.In = make([][]op, s.NMain)
+				for u := range p.In {
+					for k := rng.IntN(3); k > 0; k-- {
+						p.In[u] = append(p.In[u], genQ())
+					}
+				}
 			}
 			s.Ops = append(s.Ops, p)
 			if rng.IntN(3) == 0 {
@@ -686,6 +994,26 @@ func genSched(rng *rand.Rand, qm, qf, pm []string, maxMain, maxFb, length int) *
 	return s
 }
 
+// sameObs compares the model's answer with the implementation's observation;
+// "probed=?" in the observation (not observable) matches anything.
+func sameObs(answer, ob string) bool {
+	if answer == ob {
+		return true
+	}
+	if i := strings.Index(ob, "probed=? "); i >= 0 {
+		j := strings.Index(answer, "probed=")
+		if j != i {
+			return false
+		}
+		rest := answer[j:]
+		k := strings.Index(rest, " ")
+
+		return k >= 0 && answer[:j] == ob[:i] && rest[k+1:] == ob[i+len("probed=? "):]
+	}
+
+	return false
+}
+
 // evalSchedule runs one schedule in a fresh world, compares with the model and
 // reports.  mk builds the world.  It returns whether anything was reported.
 func evalSchedule(r *hlib.Result, m *hlib.Model, campaign string, s *sched, mk func(*sched) world, confirm int) (bad bool) {
@@ -696,7 +1024,7 @@ func evalSchedule(r *hlib.Result, m *hlib.Model, campaign string, s *sched, mk f
 	answers := m.Batch(lines)
 	dis := -1
 	for i := range lines {
-		if answers[i] != obs[i] {
+		if !sameObs(answers[i], obs[i]) {
 			dis = i
 
 			break
@@ -711,7 +1039,7 @@ func evalSchedule(r *hlib.Result, m *hlib.Model, campaign string, s *sched, mk f
 		a2 := m.Batch(l2)
 		d2 := -1
 		for i := range l2 {
-			if a2[i] != o2[i] {
+			if !sameObs(a2[i], o2[i]) {
 				d2 = i
 
 				break
@@ -730,7 +1058,13 @@ func evalSchedule(r *hlib.Result, m *hlib.Model, campaign string, s *sched, mk f
 	for _, v := range viols {
 		rs := s
 		what := v.what
-		{
+		if reported[v.sig] {
+			bad = true
+
+			continue
+		}
+		reported[v.sig] = true
+		if v.sig != "query-blocked-by-running-healthcheck" {
 			// Shrink.  The in-memory world is deterministic up to the handler's own
 			// random picks: a candidate fails if one of four runs shows the
 			// signature.  With sockets a candidate must show it twice in a row
@@ -739,10 +1073,10 @@ func evalSchedule(r *hlib.Result, m *hlib.Model, campaign string, s *sched, mk f
 			if confirm > 0 {
 				need = 2
 			}
-			ops := hlib.Shrink(s.Ops, func(cand []op) bool {
+			fails := func(cand []op) bool {
 				seen := 0
 				for try := 0; try < 4 && seen < need; try++ {
-					c := &sched{NMain: s.NMain, NFb: s.NFb, Backoff: s.Backoff, MainNet: s.MainNet, FbNet: s.FbNet, Ops: cand}
+					c := s.with(cand)
 					w3 := mk(c)
 					_, _, v3, _ := runSchedule(w3, c)
 					w3.close()
@@ -766,8 +1100,37 @@ func evalSchedule(r *hlib.Result, m *hlib.Model, campaign string, s *sched, mk f
 				}
 
 				return seen >= need
-			})
-			rs = &sched{NMain: s.NMain, NFb: s.NFb, Backoff: s.Backoff, MainNet: s.MainNet, FbNet: s.FbNet, Ops: ops}
+			}
+			ops := hlib.Shrink(s.Ops, fails)
+			// Then the queries inside rounds, one at a time.
+			for i := 0; i < len(ops); i++ {
+				for u := 0; u < len(ops[i].In); u++ {
+					for k := 0; k < len(ops[i].In[u]); {
+						cand := append([]op{}, ops...)
+						ci := cand[i]
+						ci.In = make([][]op, len(ops[i].In))
+						copy(ci.In, ops[i].In)
+						ci.In[u] = append(append([]op{}, ops[i].In[u][:k]...), ops[i].In[u][k+1:]...)
+						empty := true
+						for _, qs := range ci.In {
+							empty = empty && len(qs) == 0
+						}
+						if empty {
+							ci.In = nil
+						}
+						cand[i] = ci
+						if fails(cand) {
+							ops = cand
+							if ci.In == nil {
+								break
+							}
+						} else {
+							k++
+						}
+					}
+				}
+			}
+			rs = s.with(ops)
 		}
 		r.Violate(v.sig, what+" [schedule "+rs.canon()+"]", map[string]any{"campaign": campaign, "schedule": rs, "canon": rs.canon(), "original": s.canon()})
 		bad = true
@@ -781,8 +1144,25 @@ func evalSchedule(r *hlib.Result, m *hlib.Model, campaign string, s *sched, mk f
 	r.Traces++
 	r.Count(fmt.Sprintf("%s.mains=%d", campaign, s.NMain))
 	r.Count(fmt.Sprintf("%s.fallbacks=%d", campaign, s.NFb))
+	if s.Init != nil {
+		r.Count(campaign + ".init_check")
+		if strings.Contains(obs[0], "act=- ") {
+			r.Count(campaign + ".init_check.all_down")
+		}
+	}
+	for _, p := range s.Ops {
+		if p.Ctx != "" {
+			r.Count(campaign + ".ctx_done." + p.Kind)
+		}
+	}
 	for i, o := range obs {
 		switch {
+		case strings.HasPrefix(lines[i], "qi ") && strings.Contains(o, " f"):
+			r.Count(campaign + ".in_round_query.fallback")
+		case strings.HasPrefix(lines[i], "qi "):
+			r.Count(campaign + ".in_round_query.main_or_servfail")
+		case lines[i] == "re":
+			r.Count(campaign + ".interleaved_round")
 		case strings.HasPrefix(lines[i], "q ") && strings.HasPrefix(o, "sf"):
 			r.Count(campaign + ".query.servfail")
 		case strings.HasPrefix(lines[i], "q ") && strings.Contains(o, " f"):
@@ -822,7 +1202,7 @@ func fakeCampaign(o *hlib.Opts, r *hlib.Result, m *hlib.Model) {
 		n = 40000
 	}
 	for i := 0; i < n; i++ {
-		s := genSched(rng, fakeQ, fakeFQ, fakeP, 3, 2, 24)
+		s := genSched(rng, fakeQ, fakeFQ, fakeP, 3, 2, 24, true)
 		evalSchedule(r, m, "fake", s, mk, 0)
 	}
 
@@ -866,10 +1246,40 @@ func fakeCampaign(o *hlib.Opts, r *hlib.Result, m *hlib.Model) {
 						}
 					}
 					alpha = append(alpha, p)
+					// The same round with one query arriving while upstream u is probed
+					// (main0 answers it; the fallback too).
+					if nFb > 0 {
+						for u := 0; u < nMain; u++ {
+							pi := p
+							pi.In = make([][]op, nMain)
+							q := op{Kind: "q", Fb: []string{"r"}}
+							for v := 0; v < nMain; v++ {
+								q.Main = append(q.Main, "r")
+							}
+							pi.In[u] = []op{q}
+							alpha = append(alpha, pi)
+						}
+					}
 				}
 				alpha = append(alpha, op{Kind: "adv", K: 1})
+				// NewHandler with its initial health check (all probes fail), one level less.
+				var initFail []string
+				for u := 0; u < nMain; u++ {
+					initFail = append(initFail, "n1")
+				}
+				enumerate(alpha, depth-1, func(ops []op) {
+					evalSchedule(r, m, "exh", &sched{NMain: nMain, NFb: nFb, Backoff: b, Init: initFail, Ops: ops}, mk, 0)
+				})
 				if nMain == 1 && nFb == 1 && depth == 3 {
 					// quick tier: one more level for the smallest configuration with fallbacks
+					enumerate(alpha, 4, func(ops []op) {
+						evalSchedule(r, m, "exh", &sched{NMain: nMain, NFb: nFb, Backoff: b, Ops: ops}, mk, 0)
+					})
+
+					continue
+				}
+				if nMain == 2 && nFb == 1 && depth > 4 {
+					// 19 letters: depth 4 (the interleaved rounds make the alphabet large)
 					enumerate(alpha, 4, func(ops []op) {
 						evalSchedule(r, m, "exh", &sched{NMain: nMain, NFb: nFb, Backoff: b, Ops: ops}, mk, 0)
 					})
@@ -892,8 +1302,90 @@ func fakeCampaign(o *hlib.Opts, r *hlib.Result, m *hlib.Model) {
 	}
 	r.Count(fmt.Sprintf("exh.depth=%d_done", depth))
 	r.Notes = append(r.Notes, fmt.Sprintf(
-		"exhaustive: all op sequences of length %d over {query(main0 reply|net|other x fallback reply|net), refresh(all probe vectors), advance 1 tick} "+
-			"for 1-2 mains, 0-1 fallbacks, backoff 0-2 ticks; the handler's random pick among active upstreams is not enumerated", depth))
+		"exhaustive: all op sequences of length %d over {query(main0 reply|net|other x fallback reply|net), refresh(all probe vectors, "+
+			"plain or with one query arriving while upstream u is probed), advance 1 tick} for 1-2 mains, 0-1 fallbacks, backoff 0-2 ticks, "+
+			"and of length %d after NewHandler's initial health check found every main down (thorough: length 4 for 2 mains with a fallback); "+
+			"the handler's random pick among active upstreams is not enumerated", depth, depth-1))
+}
+
+// spreadCampaign checks the one thing about the random choice that the property
+// needs: every main upstream in rotation does get traffic, in particular one
+// that has just been reinstated ("traffic returns to the main upstreams").  With
+// 200 queries over at most 3 upstreams a fair choice misses one with probability
+// below 1e-34.
+func spreadCampaign(o *hlib.Opts, r *hlib.Result) {
+	const queries = 200
+	for k := 2; k <= 3; k++ {
+		s := &sched{NMain: k, NFb: 1, Backoff: 1}
+		w := newFakeWorld(s)
+		h := w.handler()
+		allR := make([]string, k)
+		for i := range allR {
+			allR[i] = "r"
+		}
+		ask := func(phase string, want []int) {
+			counts := make([]int, k)
+			for i := 0; i < queries; i++ {
+				w.arm(allR, []string{"r"}, i)
+				req := &dns.Msg{}
+				req.SetQuestion(queryName, dns.TypeA)
+				rw := dnsserver.NewNonWriterResponseWriter(&net.UDPAddr{IP: net.IPv4(127, 0, 0, 1), Port: 1},
+					&net.UDPAddr{IP: net.IPv4(127, 0, 0, 1), Port: 2})
+				_ = h.ServeDNS(context.Background(), rw, req)
+				for _, c := range w.takeLog() {
+					if !c.fb {
+						counts[c.idx]++
+					}
+				}
+			}
+			r.Evaluations += queries
+			for _, u := range want {
+				if counts[u] == 0 {
+					r.Violate("active-upstream-never-chosen",
+						fmt.Sprintf("%d main upstreams, %s: %d queries, all upstreams answering, were spread %v over the mains: upstream %d, which is in rotation, got none",
+							k, phase, queries, counts, u),
+						map[string]any{"campaign": "spread", "n_main": k, "phase": phase, "queries": queries, "counts": counts})
+				}
+			}
+			r.Count(fmt.Sprintf("spread.mains=%d.%s", k, phase))
+		}
+		all := make([]int, k)
+		for i := range all {
+			all[i] = i
+		}
+		ask("after NewHandler", all)
+		// The last upstream fails a probe and is taken out ...
+		probe := make([]string, k)
+		for i := range probe {
+			probe[i] = "ok"
+		}
+		probe[k-1] = "n1"
+		w.arm(probe, nil, 0)
+		_ = h.Refresh(context.Background())
+		w.takeLog()
+		ask("with the last upstream out", all[:k-1])
+		// ... and comes back after the backoff.
+		forward.VerifC17AdvanceClock(h, 2*tick)
+		probe[k-1] = "ok"
+		w.arm(probe, nil, 0)
+		_ = h.Refresh(context.Background())
+		w.takeLog()
+		ask("after the last upstream recovered", all)
+		// The first one out and back as well (position 0 moves to the end? no: order is kept).
+		probe[0] = "sf"
+		w.arm(probe, nil, 0)
+		_ = h.Refresh(context.Background())
+		w.takeLog()
+		ask("with the first upstream out", all[1:])
+		forward.VerifC17AdvanceClock(h, 2*tick)
+		probe[0] = "ok"
+		w.arm(probe, nil, 0)
+		_ = h.Refresh(context.Background())
+		w.takeLog()
+		ask("after the first upstream recovered", all)
+		w.close()
+		r.Traces++
+	}
 }
 
 func enumerate(alpha []op, depth int, f func([]op)) {
@@ -1063,6 +1555,8 @@ func readMsgCampaign(o *hlib.Opts, r *hlib.Result, m *hlib.Model) {
 		msg.Id = uint16(rng.IntN(65536))
 		msg.Response = true
 		msg.Truncated = rng.IntN(4) == 0
+		msg.RecursionAvailable = rng.IntN(2) == 0
+		msg.Rcode = []int{0, 0, 2, 3, 5, 9}[rng.IntN(6)]
 		for j := rng.IntN(3); j > 0; j-- {
 			msg.Question = append(msg.Question, dns.Question{
 				Name: names[rng.IntN(len(names))], Qtype: uint16(1 + rng.IntN(300)), Qclass: 1,
@@ -1085,7 +1579,7 @@ func readMsgCampaign(o *hlib.Opts, r *hlib.Result, m *hlib.Model) {
 				for k, q := range parsed.Question {
 					qs[k] = fmt.Sprintf("%s:%d", q.Name, q.Qtype)
 				}
-				got = fmt.Sprintf("id=%d tc=%s qs=%s", parsed.Id, b2s(parsed.Truncated), strList(qs))
+				got = fmt.Sprintf("id=%d tc=%s rc=%d qs=%s", parsed.Id, b2s(parsed.Truncated), parsed.Rcode, strList(qs))
 			}
 		}
 		line := fmt.Sprintf("rd %d", cut)
